@@ -141,4 +141,31 @@ def explainAll (nm : Names) (sig : Sig) (prog : Prog) : List (Nat × String) :=
     if checkFn sig fb.1 fb.2 then none
     else some (fb.1, (explainFn nm sig fb.1 fb.2).getD s!"{nm.fn fb.1}: checkFn fails (no explanation found)"))
 
+/-- Edges contributed by one function alone. -/
+def edgesOfFn (cls : List Nat) (tbl : AcqTbl) (sig : Sig) (f : Nat) (body : Stmt) : Edges :=
+  match sig.get f with
+  | none => []
+  | some (req, _) =>
+    match edgesS cls tbl sig body ⟨sortS req, CS.init⟩ [] with
+    | .error _ => []
+    | .ok (_, es) => es
+
+/-- Explanation of a failed `class_graph_ok`: every acquired-while-holding edge along which
+the computed rank does not increase (the edges on cycles, and same-class nesting), with the
+functions in which the pair occurs. Empty iff the obligation holds. -/
+def explainEdges (nm : Names) (className : Nat → String) (nClasses : Nat) (cls : List Nat)
+    (tbl : AcqTbl) (sig : Sig) (prog : Prog) : List String :=
+  match edgesProg cls tbl sig prog [] with
+  | none => []   -- some function fails its lock-balance obligation; that is reported by `explainAll`
+  | some es =>
+    let ranks := rankTable nClasses es
+    let bad := es.filter (fun e => !(rankOf ranks e.1 < rankOf ranks e.2))
+    bad.map (fun e =>
+      let fns := prog.filter (fun fb => (edgesOfFn cls tbl sig fb.1 fb.2).contains e)
+      s!"a lock of class {className e.2} is acquired (blocking) while one of class {className e.1} is held, which closes a cycle in the lock-class graph or nests two locks of one class without a LockPile; in: " ++
+        ", ".intercalate (fns.map (fun fb => nm.fn fb.1)))
+
+def showEdges (className : Nat → String) (es : Edges) : List String :=
+  es.map (fun e => s!"{className e.1} -> {className e.2}")
+
 end BbRe.LockSkel.Diag
